@@ -1170,7 +1170,7 @@ func cmdCorrO(r *hx.Rng, n int, stats map[string]int) {
 			f, _ := t.FirstSampleFlags()
 			return hx.HexU(uint64(t.Version)) + "." + hx.HexU(uint64(t.Flags)) + "." + hx.HexU(uint64(f))
 		}
-		in := fmt.Sprintf("%s\t%s\t%s\t%s", tfs(tf), trs(tr), hsl(tr.Samples), txs)
+		in := fmt.Sprintf("%s.%s\t%s\t%s\t%s", tfs(tf), hx.HexU(uint64(tf.TrackID)), trs(tr), hsl(tr.Samples), txs)
 		traf := &mp4.TrafBox{}
 		_ = traf.AddChild(tf)
 		_ = traf.AddChild(tr)
@@ -1198,6 +1198,7 @@ func cmdCorrO(r *hx.Rng, n int, stats map[string]int) {
 				panic(e)
 			}
 			b := buf.Bytes()
+			obs += "|" + hx.Hex(b[:ntf]) + "|" + hx.Hex(b[ntf:])
 			var b1, b2 mp4.Box
 			var e error
 			if r.Bool() {
@@ -1396,9 +1397,103 @@ func emitH(id string, sg *Seg, sr *segRun, i int, stats map[string]int) {
 	fmt.Fprintf(out, "H\t%s\t%s\t%s\t%s\n", id, cfg, opss, sb.String())
 }
 
+// ------------------------------------------------------------------ corr: D cases (box decoders on mutated boxes)
+
+func trunObs(t *mp4.TrunBox) string {
+	f, _ := t.FirstSampleFlags()
+	return hx.HexU(uint64(t.Version)) + "." + hx.HexU(uint64(t.Flags)) + "." + hx.HexU(uint64(f)) + "." + hx.HexI(int64(t.DataOffset)) + "|" + hsl(t.Samples)
+}
+
+func tfhdObs(t *mp4.TfhdBox) string {
+	return hx.HexU(uint64(t.Flags)) + "." + hx.HexU(uint64(t.TrackID)) + "." + hx.HexU(t.BaseDataOffset) + "." + hx.HexU(uint64(t.SampleDescriptionIndex)) + "." +
+		hx.HexU(uint64(t.DefaultSampleDuration)) + "." + hx.HexU(uint64(t.DefaultSampleSize)) + "." + hx.HexU(uint64(t.DefaultSampleFlags))
+}
+
+func cmdCorrD(r *hx.Rng, n int, stats map[string]int) {
+	for i := 0; i < n; i++ {
+		var b []byte
+		kind := "trun"
+		if r.Intn(4) == 0 {
+			kind = "tfhd"
+			tf := mp4.CreateTfhd(uint32(r.Range(1, 3)))
+			tf.Flags = uint32(r.Intn(64)) | uint32(r.Pick(0, 0x20000, 0x10000))
+			tf.BaseDataOffset = uint64(r.Pick(0, 77, 1<<40))
+			tf.SampleDescriptionIndex = pickU(r, 1, 2)
+			tf.DefaultSampleDuration = pickU(r, 0, 7, 0xffffffff)
+			tf.DefaultSampleSize = pickU(r, 0, 9)
+			tf.DefaultSampleFlags = pickU(r, 0, 0x2000000)
+			var buf bytes.Buffer
+			_ = tf.Encode(&buf)
+			b = buf.Bytes()
+		} else {
+			tr := mp4.CreateTrun(0)
+			tr.Version = byte(r.Intn(2))
+			tr.SetFirstSampleFlags(pickU(r, 0, 0x2000000, 0x40000))
+			tr.Flags = uint32(r.Intn(16))<<8 | uint32(r.Pick(0, 1, 4, 5))
+			tr.DataOffset = int32(r.Pick(100, -5, 0x7fffffff, -0x80000000))
+			tg := newTrackGen(r)
+			ns := r.Pick(0, 1, 2, 3, 5)
+			for j := 0; j < ns; j++ {
+				tr.AddSample(toSample(tg.sample(r)))
+			}
+			var buf bytes.Buffer
+			_ = tr.Encode(&buf)
+			b = buf.Bytes()
+		}
+		// mutations (the box stays complete: header size == number of bytes)
+		switch r.Intn(6) {
+		case 0: // flags bytes
+			b[8+1+r.Intn(3)] ^= byte(1 << uint(r.Intn(8)))
+		case 1: // version byte
+			b[8] = byte(r.Intn(3))
+		case 2: // sample count / track id
+			if len(b) >= 16 {
+				b[15] = byte(r.Pick(0, 1, 2, 3, 255))
+				if r.Intn(8) == 0 {
+					b[13] = 1
+				}
+			}
+		case 3: // drop or add 4 bytes at the end
+			if r.Bool() && len(b) >= 20 {
+				b = b[:len(b)-4]
+			} else {
+				b = append(b, 1, 2, 3, 4)
+			}
+			binary.BigEndian.PutUint32(b[0:4], uint32(len(b)))
+		case 4: // cut to a short body
+			cut := 8 + r.Intn(9)
+			if cut < len(b) {
+				b = b[:cut]
+				binary.BigEndian.PutUint32(b[0:4], uint32(len(b)))
+			}
+		}
+		var box mp4.Box
+		var err error
+		p := hx.Try(func() {
+			if r.Bool() {
+				box, err = mp4.DecodeBox(0, bytes.NewReader(b))
+			} else {
+				box, err = mp4.DecodeBoxSR(0, bits.NewFixedSliceReader(b))
+			}
+		})
+		obs := string(cls(p, err))
+		if obs == "o" {
+			switch t := box.(type) {
+			case *mp4.TrunBox:
+				obs += "|" + trunObs(t)
+			case *mp4.TfhdBox:
+				obs += "|" + tfhdObs(t)
+			}
+		}
+		stats["D."+kind+"."+obs[:1]]++
+		fmt.Fprintf(out, "D\td%d\t%s\t%s\t%s\n", i, kind, hx.Hex(b), obs)
+	}
+}
+
 func cmdCorr(seed uint64, n int, exh int) {
 	stats := map[string]int{}
 	cmdCorrO(hx.NewRng(mixSeed(seed, 0xc05)), n, stats)
+	cmdCorrD(hx.NewRng(mixSeed(seed, 0xd05)), n, stats)
 	r := hx.NewRng(mixSeed(seed, 0xc05c05))
 	for i := 0; i < n; i++ {
 		sg := genSeg(r, i%3 == 0)
